@@ -53,6 +53,7 @@ _NON_DETERMINISTIC_OPS = frozenset(
         "RandomUniformLike",
         "RandomNormalLike",
         "Multinomial",
+        "Bernoulli",
     }
 )
 
